@@ -240,6 +240,43 @@ def tBool : Ty := .typed 2
 def tStr : Ty := .typed 5
 def tObj : Ty := .typed 0
 
+/-! ## the call-level step: unify, then solve once over the union -/
+
+/-- **the verdict of a call depends on the sequence of contributed bounds only, not on how they are
+grouped into parameters** — full strength, no hypothesis. -/
+theorem solveCall_grouping (le : Ty → Ty → Bool) (join : Ty → Ty → Ty) (gs gs' : List (List Bound))
+    (h : unifyBounds gs = unifyBounds gs') : solveCall le join gs = solveCall le join gs' := by
+  unfold solveCall; rw [h]
+
+/-- in particular one parameter mentioning the type variable several times (`p: tuple[T, T]`) is
+solved exactly like the same occurrences spread over several parameters (`x: T, y: T`) -/
+theorem solveCall_one_parameter (le : Ty → Ty → Bool) (join : Ty → Ty → Ty) (leaves : List (List Bound)) :
+    solveCall le join [unifyBounds leaves] = solveCall le join leaves := by
+  simp [solveCall, unifyBounds]
+
+/-- … and, outside the exception classes, not on the order of the contributions either (the
+hypotheses speak about the de-duplicated unions, the lists `solve` works on). -/
+theorem solveCallCa_perm_partial (tbl : ClassTable) (gs gs' : List (List Bound))
+    (hperm : (dedupB [] (unifyBounds gs)).Perm (dedupB [] (unifyBounds gs')))
+    (hnt : D15_nonTransitive (leCa tbl) joinU (dedupB [] (unifyBounds gs)) = false)
+    (hnt' : D15_nonTransitive (leCa tbl) joinU (dedupB [] (unifyBounds gs')) = false)
+    (h2 : D15_twoUppers (leCa tbl) (dedupB [] (unifyBounds gs)) = false)
+    (h4 : multiOneOf (dedupB [] (unifyBounds gs)) = false) :
+    (solveCallCa tbl gs).isOk = (solveCallCa tbl gs').isOk :=
+  solveCa_perm_partial tbl _ _ hperm hnt hnt' h2 h4
+
+/-- **validating every occurrence alone does not validate the call**: `T ∈ (str, int)`, one
+occurrence gets a `str`, another an `int` — each is solvable, the union is not (and `specOk` agrees:
+no value exists), so the call-level solve must not be skipped. -/
+theorem leaves_ok_union_unsat :
+    let g1 : List Bound := [.lower tStr, .oneOf [tStr, tInt]]
+    let g2 : List Bound := [.lower tInt, .oneOf [tStr, tInt]]
+    (resolve leH joinH g1).isOk = true ∧ (resolve leH joinH g2).isOk = true ∧
+    callOk leH joinH [g1, g2] = false ∧ specOk leH (dedupB [] (unifyBounds [g1, g2])) = false := by
+  simp [callOk, solveCall, unifyBounds, resolve, dedupB, keyMem, Bound.keyEq, Ty.hashEq, Ty.beq, Ty.hashEqList, Ty.beqList,
+    tStr, tInt, solve, run, step, finish, pick, choose, removeRedundant, isAny, leH, joinH, subH, specOk, lowers, uppers,
+    oneOfs, Result.isOk]
+
 /-- `twoUppers`: `int >= T, str >= T` is solved to their join, which neither accepts. -/
 theorem twoUppers_witness : upperHolds leH joinH [.upper tInt, .upper tStr] = false := by decide
 theorem twoUppers_in_class : D15_twoUppers leH [.upper tInt, .upper tStr] = true := by decide
